@@ -153,10 +153,9 @@ func TestVerifC19I(t *testing.T) {
 					keep = append(keep, l)
 				}
 			}
-			if tmp, err := os.CreateTemp("", "c19lines"); err == nil {
-				tmp.WriteString(strings.Join(keep, "\n") + "\n")
-				tmp.Close()
-				os.Setenv("VERIF_LINES", tmp.Name())
+			out := os.Getenv("VERIF_OUT") + ".lines" // next to the output file: no stray temporary files
+			if os.WriteFile(out, []byte(strings.Join(keep, "\n")+"\n"), 0o644) == nil {
+				os.Setenv("VERIF_LINES", out)
 			}
 		}
 	}
